@@ -257,6 +257,34 @@ func (f *frame) loopModSet(li *loopInfo) *modSet {
 }
 
 func (f *frame) instrMods(in ssa.Instruction, mods *modSet, depth int) {
+	if depth > 0 {
+		// instruction of an inlined callee: its values mean nothing in the
+		// caller; objects it allocates are fresh, other stores hit the whole component
+		switch x := in.(type) {
+		case *ssa.Alloc, *ssa.MakeSlice, *ssa.MakeMap:
+			return
+		case *ssa.Store:
+			tmp := newModSet()
+			f.storeComps(x.Addr, tmp)
+			if tmp.star {
+				mods.star = true
+			}
+			for c, me := range tmp.m {
+				fresh := !me.all && len(me.refs) > 0
+				for _, rv := range me.refs {
+					switch rv.(type) {
+					case *ssa.Alloc, *ssa.MakeSlice, *ssa.MakeMap:
+					default:
+						fresh = false
+					}
+				}
+				if !fresh {
+					mods.addAll(c, me.sort)
+				}
+			}
+			return
+		}
+	}
 	switch x := in.(type) {
 	case *ssa.Store:
 		f.storeComps(x.Addr, mods)
@@ -374,6 +402,7 @@ func (f *frame) loopHeader(b *ssa.BasicBlock, li *loopInfo, st *bstate, ins []in
 		tv.T = vc.fresh("ghost."+g, tv.S)
 		st.ghost[g] = tv
 	}
+	f.monotonePhis(b, li, st, ins)
 	if lc != nil {
 		env := f.headEnv(b, func(phi *ssa.Phi) TV { return f.val(phi) }, st)
 		var invs []string
@@ -528,6 +557,24 @@ func (f *frame) havocAll(st *bstate, why string) {
 	for _, k := range keeps {
 		vc.assert(eq(sel(vc.comp(st, k.c.comp, k.c.sort), k.c.ref), k.old))
 	}
+	// type invariants of objects reachable through pointer parameters survive
+	// foreign code (it cannot write unexported fields) and repo callees (they
+	// are verified to preserve them)
+	top := f
+	for top.caller != nil {
+		top = top.caller
+	}
+	if top.fn != nil {
+		for _, p := range top.fn.Params {
+			if _, ok := p.Type().Underlying().(*types.Pointer); ok {
+				if tv, ok := top.vals[p]; ok {
+					for _, fact := range f.ptrInvs(tv, st, false) {
+						f.assume(st, fact)
+					}
+				}
+			}
+		}
+	}
 }
 
 // immutable globals read lazily must not depend on the epoch
@@ -542,4 +589,79 @@ func (vc *VC) globalComp(st *bstate, name, sort string, mutable bool) string {
 	t := vc.declare(name+"@e0", sort)
 	st.heap[name] = t
 	return t
+}
+
+// monotonePhis: a header phi p = phi[init, p+k...] with constant k > 0 on
+// every back edge satisfies p >= init (p <= init for k < 0). This is a
+// syntactic induction (machine overflow ignored, see assumptions).
+func (f *frame) monotonePhis(b *ssa.BasicBlock, li *loopInfo, st *bstate, ins []inEdge) {
+	for _, in := range b.Instrs {
+		phi, ok := in.(*ssa.Phi)
+		if !ok {
+			break
+		}
+		tv, ok := f.vals[phi]
+		if !ok || tv.S != "Int" {
+			continue
+		}
+		dir := 0
+		okAll := true
+		var inits []ssa.Value
+		for i, p := range b.Preds {
+			e := phi.Edges[i]
+			if !li.body[p] {
+				inits = append(inits, e)
+				continue
+			}
+			if e == ssa.Value(phi) {
+				continue
+			}
+			bo, isB := e.(*ssa.BinOp)
+			if !isB || bo.X != ssa.Value(phi) {
+				okAll = false
+				break
+			}
+			c, isC := bo.Y.(*ssa.Const)
+			if !isC || c.Value == nil {
+				okAll = false
+				break
+			}
+			k := c.Int64()
+			if bo.Op.String() == "-" {
+				k = -k
+			} else if bo.Op.String() != "+" {
+				okAll = false
+				break
+			}
+			switch {
+			case k > 0 && dir >= 0:
+				dir = 1
+			case k < 0 && dir <= 0:
+				dir = -1
+			default:
+				okAll = false
+			}
+		}
+		if !okAll || dir == 0 || len(inits) == 0 {
+			continue
+		}
+		for _, iv := range inits[1:] {
+			if iv != inits[0] {
+				okAll = false
+			}
+		}
+		if !okAll {
+			continue
+		}
+		if _, isLV := f.lvs[inits[0]]; isLV {
+			continue
+		}
+		init := f.val(inits[0])
+		if dir > 0 {
+			f.vc.assert(implies(st.alive, "(>= "+tv.T+" "+init.T+")"))
+		} else {
+			f.vc.assert(implies(st.alive, "(<= "+tv.T+" "+init.T+")"))
+		}
+		f.vc.note("auto-invariant: monotone loop counters are bounded by their initial value (syntactic induction)")
+	}
 }
